@@ -19,7 +19,8 @@ enum Op {
     SetByName(String, Option<String>),
     GetByName(String),
     IsDefined(String),
-    GetAllVarNames,
+    /// with the output variable the listing is assigned to (it may be defined already)
+    GetAllVarNames(Option<String>),
     UnsetAll(Option<String>),
     ClearScope(String),
     Push(Option<Vec<String>>),
@@ -44,7 +45,7 @@ fn gen_op(t: &mut Tape) -> Op {
         2 => Op::SetByName(t.pick(NAMES).to_string(), if t.chance(2, 3) { Some(value(t)) } else { None }),
         3 => Op::GetByName(t.pick(NAMES).to_string()),
         4 => Op::IsDefined(t.pick(NAMES).to_string()),
-        5 => Op::GetAllVarNames,
+        5 => Op::GetAllVarNames(if t.chance(2, 3) { Some(t.pick(NAMES).to_string()) } else { None }),
         6 => Op::UnsetAll(if t.flip() { Some(t.pick(&["a", "ab", "s::", "s", "zz", ""]).to_string()) } else { None }),
         7 => Op::ClearScope(t.pick(&["s", "a", "s::x", "none"]).to_string()),
         8 => Op::Push(if t.chance(2, 3) { Some(names(t, 4)) } else { None }),
@@ -140,8 +141,21 @@ fn case(t: &mut Tape, st: &mut Stats, max_len: usize) -> Verdict {
             }
             Op::GetByName(k) => (exec(&mut ctx, "get_by_name", vec![k.clone()]), format!("Continue({:?})", m.get(k))),
             Op::IsDefined(k) => (exec(&mut ctx, "is_defined", vec![k.clone()]), format!("Continue({:?})", Some(m.contains_key(k).to_string()))),
-            Op::GetAllVarNames => {
-                let r = exec(&mut ctx, "get_all_var_names", vec![]);
+            Op::GetAllVarNames(out) => {
+                let r = match out {
+                    None => exec(&mut ctx, "get_all_var_names", vec![]),
+                    Some(o) => {
+                        if m.contains_key(o) {
+                            st.class("listing-assigned-to-a-variable-that-is-already-defined");
+                        }
+                        let mut i = ins("get_all_var_names", vec![]);
+                        if let InstructionType::Script(si) = &mut i.instruction_type {
+                            si.output = Some(o.clone());
+                        }
+                        let (mut env, _o) = make_env(None);
+                        runner::run_instruction(&mut ctx.commands, &mut ctx.variables, &mut ctx.state, &vec![], i, 0, &mut env).0
+                    }
+                };
                 let h = match &r {
                     CommandResult::Continue(Some(h)) => h.clone(),
                     other => return fail("C11/get_all_var_names/output", describe("no handle returned", json!(res_str(other)))),
@@ -160,6 +174,11 @@ fn case(t: &mut Tape, st: &mut Stats, max_len: usize) -> Verdict {
                 let want: BTreeSet<String> = m.keys().cloned().collect();
                 if got != want || len != want.len() {
                     return fail("C11/get_all_var_names/output", describe("names differ", json!({"model": want, "actual": got, "length": len})));
+                }
+                if let Some(o) = out {
+                    // what the runner does with the output variable
+                    ctx.variables.insert(o.clone(), h.clone());
+                    m.insert(o.clone(), h.clone());
                 }
                 (CommandResult::Continue(None), "Continue(None)".to_string())
             }
@@ -288,7 +307,7 @@ fn case_t(t: &mut Tape, st: &mut Stats) -> Verdict {
 pub fn property() -> Property {
     Property {
         id: "C11",
-        rule: "histories of 1..40 (thorough ..120) operations (set, unset, set_by_name with/without value, get_by_name, is_defined, get_all_var_names, unset_all_vars with/without --prefix, clear_scope, scope_push_stack and scope_pop_stack with/without --copy lists naming defined, undefined and repeated names, pops on an empty stack) over 8 names (prefix-sharing, '::' names, names holding another name's prefix in the middle) and hazard values, each executed as one run_instruction on a persistent SDK context; after EVERY step the command result and the whole variable map are compared with HashMap + Vec<HashMap>. Non-trivial: push depth >= 2 with a --copy, or a failed pop followed by more operations; distinct by history",
+        rule: "histories of 1..40 (thorough ..120) operations (set, unset, set_by_name with/without value, get_by_name, is_defined, get_all_var_names (with or without an output variable, which may be defined already), unset_all_vars with/without --prefix, clear_scope, scope_push_stack and scope_pop_stack with/without --copy lists naming defined, undefined and repeated names, pops on an empty stack) over 8 names (prefix-sharing, '::' names, names holding another name's prefix in the middle) and hazard values, each executed as one run_instruction on a persistent SDK context; after EVERY step the command result and the whole variable map are compared with HashMap + Vec<HashMap>. Non-trivial: push depth >= 2 with a --copy, or a failed pop followed by more operations; distinct by history",
         assumptions: &[
             "values are free of '$', '%' and backslash (binding of such values is C02's subject)",
             "for a name undefined when copied on pop only the absence of a failure and the rest of the map are compared (the model adopts the observed value of that name)",
@@ -302,7 +321,7 @@ pub fn property() -> Property {
                     Tier::Thorough => Plan::Random { cases: 10_000_000, max_len: 500 },
                 },
                 case: case_q,
-                min_classes: &[("pop-on-empty-stack", 2000), ("pop-copy-of-undefined-name", 2000), ("push-depth-2", 2000)],
+                min_classes: &[("pop-on-empty-stack", 2000), ("pop-copy-of-undefined-name", 2000), ("push-depth-2", 2000), ("listing-assigned-to-a-variable-that-is-already-defined", 2000)],
             },
             Section {
                 name: "long-histories",
